@@ -21,13 +21,13 @@ import (
 )
 
 type ArgVal struct {
-	Name  string  `json:"name"`
-	Type  string  `json:"type"`
-	Int   int64   `json:"int,omitempty"`
-	Bool  bool    `json:"bool,omitempty"`
-	Bytes []int64 `json:"bytes,omitempty"`
-	IsNil bool    `json:"nil,omitempty"`
-	Kind  string  `json:"kind"` // int bool bytes string struct
+	Name   string   `json:"name"`
+	Type   string   `json:"type"`
+	Int    int64    `json:"int,omitempty"`
+	Bool   bool     `json:"bool,omitempty"`
+	Bytes  []int64  `json:"bytes,omitempty"`
+	IsNil  bool     `json:"nil,omitempty"`
+	Kind   string   `json:"kind"` // int bool bytes string struct
 	Fields []ArgVal `json:"fields,omitempty"`
 }
 
